@@ -101,9 +101,11 @@ impl LocationListTable {
                 // Note that we must ensure none of the ranges have both begin == 0 and end == 0.
                 // We do this by ensuring that begin != end, which is a bit more restrictive
                 // than required, but still seems reasonable.
+                // An entry whose first value is all ones is a base address selection
+                // entry in this format, so no range may begin there.
+                let marker = !0 >> (64 - address_size * 8);
                 match *loc {
                     Location::BaseAddress { address } => {
-                        let marker = !0 >> (64 - address_size * 8);
                         w.write_udata(marker, address_size)?;
                         w.write_address(address, address_size)?;
                         have_base_address = true;
@@ -113,7 +115,7 @@ impl LocationListTable {
                         end,
                         ref data,
                     } => {
-                        if begin == end {
+                        if begin == end || begin == marker {
                             return Err(Error::InvalidRange);
                         }
                         if !have_base_address {
@@ -128,7 +130,7 @@ impl LocationListTable {
                         end,
                         ref data,
                     } => {
-                        if begin == end {
+                        if begin == end || begin == Address::Constant(marker) {
                             return Err(Error::InvalidRange);
                         }
                         if have_base_address {
@@ -144,13 +146,15 @@ impl LocationListTable {
                         ref data,
                     } => {
                         let end = match begin {
-                            Address::Constant(begin) => Address::Constant(begin + length),
+                            Address::Constant(begin) => Address::Constant(
+                                begin.checked_add(length).ok_or(Error::InvalidRange)?,
+                            ),
                             Address::Symbol { symbol, addend } => Address::Symbol {
                                 symbol,
-                                addend: addend + length as i64,
+                                addend: addend.wrapping_add(length as i64),
                             },
                         };
-                        if begin == end {
+                        if begin == end || begin == Address::Constant(marker) {
                             return Err(Error::InvalidRange);
                         }
                         if have_base_address {
